@@ -212,11 +212,23 @@ Definition remove (p : part) (o : obj) (w : which) : part * out :=
              end
   end.
 
+(* TimePoint.remove_starting_object / remove_ending_object called on the point the object refers to
+   (`o.start.remove_starting_object(o)`): deregisters and clears the back reference; NO clean-up, so the
+   point may stay behind empty -- like a point made by a bare get_or_add_point *)
+Definition tp_remove (s : side) (p : part) (o : obj) : part :=
+  match oref s p o with
+  | None => p
+  | Some t =>
+      set_oref s (fset (oref s p) o None)
+        (upd_at t (fun q => set_preg s (oset_remove o (preg s q)) q) (points p)) p
+  end.
+
 Inductive op :=
 | OAdd (o : obj) (s e : option Z)
 | ORemove (o : obj) (w : which)
 | OSetQ (t q : Z)
-| OGetOrAdd (t : Z).
+| OGetOrAdd (t : Z)
+| OTpRemove (o : obj) (s : side).
 
 Definition step (p : part) (o : op) : part * out :=
   match o with
@@ -224,6 +236,7 @@ Definition step (p : part) (o : op) : part * out :=
   | ORemove ob w => remove p ob w
   | OSetQ t q => (set_quarter_duration p t q, OutOk)
   | OGetOrAdd t => if t <? 0 then (p, OutInvalidTime) else (get_or_add_point p t, OutOk)
+  | OTpRemove ob s => (tp_remove s p ob, OutOk)
   end.
 
 Fixpoint run (p : part) (ops : list op) : part :=
@@ -333,12 +346,19 @@ Inductive query :=
 | QIterPrev (t : Z) (c : option Z) (eq sub : bool)
 | QFirstLast
 | QGetPoint (t : Z)
-| QQuarterDurations (a b : option Z).
+| QQuarterDurations (a b : option Z)
+(* interpreted by the index-level / registry-level models only (Model/C01_Idx.v, Model/C01_Dict.v) *)
+| QSearch (t : Z)            (* np.searchsorted(part._points, TimePoint(t)) *)
+| QCmp (a b : Z)             (* TimePoint(a) op TimePoint(b) for op in < <= == >= > != *)
+| QCachedMap (s : Z).        (* int(part._quarter_map(s)): the cached interpolator *)
 
 Inductive qres :=
 | RObjs (l : list (Z * obj))        (* in iteration order, equal-time runs sorted by the harness *)
 | RTimes (a b : option Z)
-| RQd (l : list (Z * Z)).
+| RQd (l : list (Z * Z))
+| RIdx (i : Z)
+| RBools (l : list bool)
+| RVal (v : Z).
 
 Definition times_eqb (a b : list (Z * obj)) : bool := list_eqb Z.eqb (map fst a) (map fst b).
 
@@ -354,6 +374,8 @@ Definition query_ok (p : part) (q : query) (r : qres) : bool :=
   | QFirstLast, RTimes a b => zopt_eqb (first_point p) a && zopt_eqb (last_point p) b
   | QGetPoint t, RTimes a _ => zopt_eqb (option_map pt (get_point t (points p))) a
   | QQuarterDurations a b, RQd l => zz_eqb (quarter_durations p a b) l
+  | QSearch _, RIdx _ | QCmp _ _, RBools _ => true     (* not this model's business *)
+  | QCachedMap s, RVal v => qd_at (qtab p) s =? v      (* here the map is always the current table *)
   | _, _ => false
   end.
 
